@@ -22,7 +22,8 @@ CONTAINS_RELAXED = ("schema.list([..., schema.dict({'id': schema.int, 'name': sc
 LIST_SCHEMAS = [
     CONTAINS_RELAXED,
     "schema.list", "schema.list(schema.int)", "schema.list(schema.int.min(0))", "schema.list(schema.str).len(2)",
-    "schema.list(schema.int).len(1, ...)", "schema.list([schema.int, schema.str])", "schema.list([])",
+    "schema.list(schema.int).len(1, ...)", "schema.list(schema.int).len(..., 4)", "schema.list(schema.int).len(1, 3)",
+    "schema.list([schema.int, schema.str])", "schema.list([])",
     "schema.list([schema.int, ...])", "schema.list([schema.int, schema.str, ...])", "schema.list([..., schema.int])",
     "schema.list([..., schema.int, schema.str])", "schema.list([..., schema.int, ...])",
     "schema.list([..., schema.int, schema.str, ...])", "schema.list([..., schema.int(1), ...])",
@@ -176,6 +177,43 @@ def ownership_case(src: str):
                 return True, f"{name}({src}, value) mutated the value passed in: {vb!r} -> {snap(v)!r}"[:700]
             if snap(S1) != before:
                 return True, f"{name} with value {vb!r} changed its operand {src}"[:700]
+    # later mutation of a list / dict that was passed to substitute or from_native does not change the schema built from it
+    from d42.utils import from_native
+
+    def scramble(x):
+        if isinstance(x, list):
+            for y in x:
+                scramble(y)
+            x.append(1)
+        elif isinstance(x, dict):
+            for y in list(x.values()):
+                scramble(y)
+            x["__later__"] = 1
+
+    def later_values():
+        yield lambda: []
+        yield lambda: {}
+        yield lambda: [1]
+        yield lambda: [[]]
+        yield lambda: [{}]
+        yield lambda: {"a": 1}
+        yield lambda: {"a": []}
+        yield lambda: {"a": {}}
+        yield lambda: {"items": [], "a": 1}
+        yield lambda: [1, "x"]
+        yield lambda: {"a": [1, {"b": []}]}
+    for mk in later_values():
+        for name, op in (("substitute", lambda v: substitute(S1, v)), ("from_native", lambda v: from_native(v))):
+            v = mk()
+            try:
+                R = op(v)
+            except Exception:
+                continue
+            rb = snap(R)
+            scramble(v)
+            if snap(R) != rb:
+                return True, (f"{name}({src if name == 'substitute' else ''}{', ' if name == 'substitute' else ''}{mk()!r}) keeps the "
+                              f"caller's container: mutating the value afterwards changes the schema built from it: {rb!r} -> {snap(R)!r}")[:700]
     return False, "operands and values unchanged"
 
 
